@@ -14,6 +14,7 @@ mod c14;
 mod c15;
 mod c17;
 mod c19;
+mod c20;
 mod sp;
 mod case;
 mod gen;
@@ -102,6 +103,10 @@ fn main() {
                     rep = Report::new("C19", "trees (every shape up to a node bound, random trees to 120 nodes, five arena layouts) with dyadic branch lengths (a few with a missing length); the model emits for every non-root node its parent, the exact angle of its branch as a rational fraction of a turn, and the length; the harness applies cos/sin and compares every coordinate within 1e-9 of the drawing's extent; a case is one tree; non-trivial = all lengths present and at least four nodes");
                     c19::run(tier == "thorough", seed, &driver, &mut rep);
                 }
+                "C20" => {
+                    rep = Report::new("C20", "cross product of every public function of Tree (with every choice of live / removed / out-of-range node arguments and nine comparison partners), DistanceMatrix (sizes 0-3, non-finite matrices) and the generators (n = 0..3, in a watchdogged child process) with every class of degenerate value: empty tree, single node, unnamed / duplicate leaves, missing lengths, non-binary, unrooted, unary chain, two roots, everything removed, removed slot before the root, stale caches after an un-reset edit, trees degenerated by random edit histories; each call isolated by catch_unwind; a case is one call; non-trivial = the call did not simply succeed");
+                    c20::run(tier == "thorough", seed, &driver, &mut rep);
+                }
                 "C02" => {
                     rep = Report::new("C02", "strings fed to Tree::from_newick (corpus, every string up to a length bound over the token alphabet ( ) , ; : [ ] \" a 1 space, every short float lexeme, mutated valid Newick, random Unicode); a case is one string; non-trivial = contains at least one structural token");
                     c02::run(tier == "thorough", seed, &driver, &mut rep);
@@ -118,6 +123,10 @@ fn main() {
             } else {
                 std::fs::write(&out, text).unwrap();
             }
+        }
+        "probe-gen" => {
+            let code = c20::probe_gen(&args[2], args[3].parse().unwrap_or(0), args[4] == "1");
+            std::process::exit(code);
         }
         "replay" => {
             let script = std::fs::read_to_string(&args[2]).expect("cannot read script");
